@@ -196,7 +196,7 @@ def run(tier, seed):
             what, part = "rejected by the macro, accepted by the model", "verdict:rejected"
         else:
             segs_i, segs_m = io.split(" # "), mo.split(" # ")
-            names = ["units", "impls", "consts", "variants", "arms", "items"]
+            names = ["units", "impls", "consts", "variants", "arms", "items", "serde"]
             diff = [names[j] if j < len(names) else "tail" for j in range(max(len(segs_i), len(segs_m)))
                     if (segs_i[j] if j < len(segs_i) else None) != (segs_m[j] if j < len(segs_m) else None)]
             part = "+".join(diff) or "units"
